@@ -160,6 +160,11 @@ theorem AffineCoordinates.decode_encode (x : AffineF) : AffineCoordinates.decode
   simp only [AffineCoordinates.decode, AffineCoordinates.encode]
   simp [Rec.get?, List.lookup, cObject_cDo, rawLit]
 
+theorem IdentityCoordinates.decode_encode (x : IdentityF) :
+    IdentityCoordinates.decode (IdentityCoordinates.encode x) = some x := by
+  simp only [IdentityCoordinates.decode, IdentityCoordinates.encode]
+  simp [Rec.get?, List.lookup, rawLit]
+
 theorem LinkCollection.decode_encode (x : LinkCollF) : LinkCollection.decode (LinkCollection.encode x) = some x := by
   simp only [LinkCollection.decode, LinkCollection.encode]
   simp [Rec.get?, List.lookup, cObject_cId]
@@ -242,7 +247,8 @@ theorem Body.decode_encode (b : Body) (hwf : b.wf = true) : Body.decode b.encode
   | multiOr f => simp [Body.decode, Body.encode, Body.tag, Body.saverRec, MultiOrState.decode_encode]
   | floodFill f => simp [Body.decode, Body.encode, Body.tag, Body.saverRec, FloodFillSubsetState.decode_encode]
   | affine f => simp [Body.decode, Body.encode, Body.tag, Body.saverRec, AffineCoordinates.decode_encode]
-  | identityCoords => simp [Body.decode, Body.encode, Body.tag]
+  | identityCoords f => simp [Body.decode, Body.encode, Body.tag, Body.saverRec, IdentityCoordinates.decode_encode]
+  | baseCoords => simp [Body.decode, Body.encode, Body.tag]
   | linkColl f => simp [Body.decode, Body.encode, Body.tag, Body.saverRec, LinkCollection.decode_encode]
   | multiLink f => simp [Body.decode, Body.encode, Body.tag, Body.saverRec, MultiLink.decode_encode]
   | linkSame f => simp [Body.decode, Body.encode, Body.tag, Body.saverRec, LinkSame.decode_encode]
